@@ -43,7 +43,13 @@ if ! build $NEED > "$LOG" 2>&1; then
 fi
 rm -f "$LOG"
 case "$MODE" in
-  replay) exec "$ROOT/bin/vcheck" replay "$3";;
+  replay)
+    if [ "$NEED" = race ]; then
+      mkdir -p "$ROOT/work/replay-$$"
+      GORACE="halt_on_error=0 exitcode=0 log_path=$ROOT/work/replay-$$/race.log" "$ROOT/bin/vcheck.race" replay "$3"; rc=$?
+      rm -rf "$ROOT/work/replay-$$"; exit $rc
+    fi
+    exec "$ROOT/bin/vcheck" replay "$3";;
   quick|thorough) exec "$ROOT/bin/vcheck" run "$ID" "$MODE";;
   *) echo "unknown mode $MODE"; exit 2;;
 esac
